@@ -48,7 +48,7 @@ HANDLER(tyfn)
 }
 
 // compat <opts> <hex text> -> for every ordered pair of OBJECT declarations (in source order) four bits:
-//   typesAreCompatible(t1, t2, treatVoidAsAny, ignoreQualifier) for (0,0) (0,1) (1,0) (1,1)
+//   typesAreCompatible(t1, t2, treatVoidAsAny, ignoreQualifier) for (0,0) (0,1) (1,0) (1,1), then isTypeAssignableFromOtherType(t1, t2, not-a-null-constant)
 namespace {
 struct ObjCollector : SyntaxVisitor {
     const SemanticModel* sema; std::vector<const Type*> tys;
@@ -80,6 +80,8 @@ HANDLER(compat)
             for (int v = 0; v < 2; ++v)
                 for (int q = 0; q < 2; ++q)
                     out << (t1 && t2 && checker.typesAreCompatible(t1, t2, v, q) ? 1 : 0);
+            // fifth bit: isTypeAssignableFromOtherType(t1, t2, <a node that is not the constant 0>)
+            out << (t1 && t2 && checker.isTypeAssignableFromOtherType(t1, t2, c.tree->rootNode()) ? 1 : 0);
         }
     return out.str();
 }
